@@ -1052,6 +1052,34 @@ func checkMetadata(run *MixRun) {
 			} else if d := mdEqual(wantT, gt); d != "" {
 				e.Violate(prop, "response-trailer", site, "call %d (unary): trailers on the wire differ: %s", id, d)
 			}
+			// ... and what the caller can see of them: Invoke takes no call options, a
+			// client stats handler's InHeader event is the one place where the headers of a
+			// unary reply surface - whatever status the reply carries
+			if run.Obs != nil && len(wantH) > 0 {
+				for _, h := range run.Obs.Stats {
+					if h.side != 'c' {
+						continue
+					}
+					for _, t := range h.tags {
+						if t.Call != id || t.Tag == 0 {
+							continue
+						}
+						seen, ok := false, false
+						for _, ev := range t.Events {
+							if ev.Kind == "InHeader" {
+								seen = true
+								if mdEqual(wantH, ev.MD, icptKey) == "" {
+									ok = true
+								}
+							}
+						}
+						if !ok {
+							e.Violate(prop, "response-header", "unary.client-stats", "call %d (unary, handler status %v): client stats handler %d saw the reply's headers as an InHeader event: %v, matching what the handler set: %v", id, c.HStatus.Err(), h.idx, seen, ok)
+						}
+					}
+				}
+				e.Note("md.unary.client-stats")
+			}
 			e.Note("md.unary.response")
 			continue
 		}
